@@ -44,5 +44,7 @@ if pid == "C02":
     emit(("coq/Properties_C02_full.v", "_full"), lambda n, i: i[3] == 1 and n != "A_convert", "remaining (expensive) instances, thorough tier")
     emit(("coq/Properties_C02_convert.v", ""), lambda n, i: n == "A_convert", "st2tost2::convert (used when finding F22 is absent)")
 else:
-    emit(("coq/Properties_%s.v" % pid, ""), lambda n, i: i[3] == 0, "traced conversions = chain-rule formulas in index notation, core set")
-    emit(("coq/Properties_%s_full.v" % pid, "_full"), lambda n, i: i[3] == 1, "remaining (expensive) instances, thorough tier")
+    F23 = "DS_DF_from_DS_DEGL"
+    emit(("coq/Properties_%s.v" % pid, ""), lambda n, i: i[3] == 0 and n != F23, "traced conversions = chain-rule formulas in index notation, core set")
+    emit(("coq/Properties_%s_full.v" % pid, "_full"), lambda n, i: i[3] == 1 and n != F23, "remaining (expensive) instances, thorough tier")
+    emit(("coq/Properties_%s_dsdf.v" % pid, ""), lambda n, i: n == F23, "DS_DF <- DS_DEGL (used when finding F23 is absent)")
